@@ -9,6 +9,7 @@ def stepC02 (toks : List String) : String :=
   | "m" :: _ => Hive.Deser.stepLine toks
   | "tu" :: _ => Hive.Deser.stepLine toks
   | "sr" :: _ => Hive.Stream.stepLine toks
+  | "sk" :: _ => Hive.Stream.stepLine toks
   | "j" :: _ => Hive.JsonDec.stepLine toks
   | "x" :: _ => "oracle-only"
   | _ => "bad-op"
